@@ -10,7 +10,8 @@
 (* satisfies the Planner contract and that planning terminates.                  *)
 EXTENDS Planner, TLC
 
-CONSTANTS NVals, NOpsMax, ScheduleOnce
+CONSTANTS NVals, NOpsMax, ScheduleOnce,
+          Rich      \* TRUE: operators may have absent (0) operands / outputs and captures; FALSE: plain family (for 2 operators)
 
 VARIABLES g, req,          \* the graph and the request [ins, outs, allow, capsavail]
           phase,           \* "check" | "outputs" | "visit" | "sort" | "done" | "err"
@@ -24,10 +25,11 @@ vars == <<g, req, phase, oi, stack, active, resolved, plan, frontier, scheduled,
 ValIds == 1..NVals
 OpId(i) == NVals + i
 SeqsUpTo(S, n) == UNION {[1..k -> S] : k \in 0..n}
-OutSeqs == {s \in UNION {[1..k -> ValIds \cup {0}] : k \in 1..2} :
+Opt == IF Rich THEN {0} ELSE {}
+OutSeqs == {s \in UNION {[1..k -> ValIds \cup Opt] : k \in 1..2} :
               /\ s[Len(s)] # 0 /\ \A i, j \in DOMAIN s : (i # j /\ s[i] # 0) => s[i] # s[j]}
-OpRecs == [ins : SeqsUpTo(ValIds \cup {0}, 2), outs : OutSeqs,
-           caps : {{}} \cup {{v} : v \in ValIds}, inplace : BOOLEAN]
+OpRecs == [ins : SeqsUpTo(ValIds \cup Opt, 2), outs : OutSeqs,
+           caps : IF Rich THEN {{}} \cup {{v} : v \in ValIds} ELSE {{}}, inplace : BOOLEAN]
 RECURSIVE OpLists(_)
 OpLists(n) == IF n = 0 THEN {<<>>}
               ELSE {Append(s, o) : s \in OpLists(n - 1), o \in OpRecs}
@@ -43,9 +45,9 @@ MkGraph(ops, captured) ==
    captured |-> captured]
 SetToSeq(S) == CHOOSE s \in [1..Cardinality(S) -> S] : RangeOf(s) = S /\ \A i, j \in DOMAIN s : i < j => s[i] < s[j]
 ReqOuts == {s \in UNION {[1..k -> ValIds] : k \in 1..2} : NoDupSeq(s)}
-Requests == [ins : {SetToSeq(S) : S \in SUBSET ValIds}, outs : ReqOuts, allow : BOOLEAN, capsavail : BOOLEAN]
+Requests == [ins : {SetToSeq(S) : S \in SUBSET ValIds}, outs : ReqOuts, allow : BOOLEAN, capsavail : IF Rich THEN BOOLEAN ELSE {FALSE}]
 
-Init == /\ \E n \in 1..NOpsMax : \E ops \in OpLists(n) : \E c \in {{}} \cup {{v} : v \in ValIds} :
+Init == /\ \E n \in 1..NOpsMax : \E ops \in OpLists(n) : \E c \in (IF Rich THEN {{}} \cup {{v} : v \in ValIds} ELSE {{}}) :
              UniqueProducers(ops) /\ g = MkGraph(ops, c)
         /\ req \in Requests
         /\ phase = "check" /\ oi = 1 /\ stack = <<>> /\ active = {} /\ resolved = {} /\ plan = <<>>
